@@ -90,13 +90,15 @@ theorem generic_form (st : Style) (env : PEnv) (data : Bytes) (hd : ∀ x ∈ da
     fromTextRdata none env (printGeneric st data) = some (.generic data) :=
   generic_unknown_roundtrip st env data hd hc
 
-/-- "the RFC 3597 generic form of known … types": when the wire codec of the type round-trips on the value
-(`dec (enc v) = v` with the origin passed to `from_text`), the generic text of the wire form parses back to the value.
-(The hypothesis fails for a name at or below the origin — the re-encode check of `dns.rdata.from_text` then raises:
-known finding `generic-form/known-type/parse-fails/name-under-origin`.) -/
+/-- "the RFC 3597 generic form of known … types … under any origin/relativization choice": when the wire codec of the
+type round-trips on the value against the origin `dns.rdata.from_text` uses for the wire form
+(`wire_origin = (relativize_to or origin) if relativize else None`, commit 7f93d2c — names at or below the origin are
+relativized on decoding and re-encoded against the same origin, so they no longer trip the re-encode check), the generic
+text of the wire form parses back to the value.  The two hypotheses are the C02 wire round trip of the type. -/
 theorem generic_form_known (tn : String) (sch : Schema) (hsch : schemaOf tn = some sch) (st : Style) (env : PEnv)
     (vals : List FV) (tail : Option FV) (w : Bytes) (hw : ∀ x ∈ w, x < 256) (hc : ChunkOk st.hexChunk st.hexSep)
-    (henc : encRec tn sch vals tail = some w) (hdec : decRec tn sch w env.origin = some (vals, tail)) :
+    (henc : encRec tn sch (wireOrigin env) vals tail = some w)
+    (hdec : decRec tn sch w (wireOrigin env) = some (vals, tail)) :
     fromTextRdata (some tn) env (printGeneric st w) = some (.known vals tail) := by
   unfold fromTextRdata
   have hlex := printGeneric_lexes st w hw hc
@@ -105,6 +107,13 @@ theorem generic_form_known (tn : String) (sch : Schema) (hsch : schemaOf tn = so
       identToks (wordbreakChunks (hexlify w) st.hexChunk)) = true := by
     simp [isGenericStart]
   simp only [hsch, hstart, if_true, parseGeneric_tokens w hw st.hexChunk, hdec, henc]
+
+/-- non-vacuity of the encode hypothesis on the former failing input (`MX 10 m` relative to `ex.`, i.e. the wire form of
+`10 m.ex.` read with origin `ex.`): the relativized name re-encodes to the given octets.  (The decode hypothesis runs
+`fromWire`, defined by well-founded recursion, which `decide` cannot unfold; it is exercised on this and ~900 other
+values per run by the correspondence op `c05.parse` against the implementation.) -/
+example : (schemaOf "MX").bind (fun sch => encRec "MX" sch (wireOrigin { origin := some [[101, 120], []] })
+    [.n 10, .nm [[109]]] none) = some [0, 10, 1, 109, 2, 101, 120, 0] := by decide
 
 /-- well-formed for text (the decidable side conditions are spelled out in `FieldOk` / `TailOk`):
 every field within its range, names legal and printed/parsed in a configuration that does not rewrite them,
